@@ -10,9 +10,12 @@
   pointer (which denotes `len` zero bytes).  The destination is `buf` (`len = buf.length`).
   Readers run on `Spec.encode m ++ rest` for arbitrary trailing bytes `rest`; every read
   goes through `get?`, so `= some …` also says that nothing outside the block is read.
+
+  Sizes: `Msg.WF.size` asks for an encoding shorter than 2^32 bytes (`unsigned pos` of the C
+  code), the iterator theorems for one shorter than 2^31 (`int size` in `rtosc_itr_next`).
+  The table theorem `tables_agree` lives in its own module, Props/C01Tables.lean.
 -/
 import RtoscModel.Proofs.OscAccess
-import RtoscModel.Proofs.OscTables
 namespace Rtosc.Osc
 open Rtosc
 
@@ -52,14 +55,15 @@ theorem amessage_null_blob (m : Msg) (cargs : List CArg) (buf : Bytes) (hwf : m.
 /-- **vmessage_eq_spec** — `rtosc_message`/`rtosc_vmessage` (the `va_list` holds the promoted
     values of a call site) produce `Spec.encode m`.  `narrow`/`widen` are the target's
     double→float / float→double conversions; the only fact used is that widening then
-    narrowing gives back the 32-bit values of the message. -/
+    narrowing gives back the values under an `'f'` tag (`fArgs`: the only arguments that are
+    promoted to `double`; `i`/`c`/`r` values travel as `int` and need nothing). -/
 theorem vmessage_eq_spec (narrow : UInt64 → UInt32) (widen : UInt32 → UInt64) (m : Msg)
     (cargs : List CArg) (buf : Bytes) (hwf : m.WF) (hd : Denote cargs m.args)
-    (hf : ∀ v, CArg.w32 v ∈ cargs → narrow (widen v) = v)
+    (hf : ∀ v ∈ fArgs m.tags cargs, narrow (widen v) = v)
     (hcap : (Spec.encode m).length ≤ buf.length) :
     vmessage narrow (some buf) m.addr m.tags (promote widen m.tags cargs) =
       some ⟨some (Spec.encode m ++ buf.drop (Spec.encode m).length), (Spec.encode m).length, false⟩ := by
-  rw [vmessage_promote narrow widen (some buf) m.addr m.tags cargs m.args hwf.matches_ hd hf]
+  rw [vmessage_promote_f narrow widen (some buf) m.addr m.tags cargs m.args hwf.matches_ hd hf]
   exact amessage_spec m cargs buf hwf hd hcap
 
 /-- **avmessage_eq_spec** — `rtosc_avmessage` on the arg-val list of the message (no ranges, no
@@ -77,27 +81,55 @@ theorem avmessage_eq_spec (m : Msg) (cargs : List CArg) (buf : Bytes) (hwf : m.W
     return the same value and leave the same bytes. -/
 theorem three_constructors_agree (narrow : UInt64 → UInt32) (widen : UInt32 → UInt64) (m : Msg)
     (cargs : List CArg) (buffer : Option Bytes) (hwf : m.WF) (hd : Denote cargs m.args)
-    (hf : ∀ v, CArg.w32 v ∈ cargs → narrow (widen v) = v) :
+    (hf : ∀ v ∈ fArgs m.tags cargs, narrow (widen v) = v) :
     vmessage narrow buffer m.addr m.tags (promote widen m.tags cargs) =
       amessage buffer m.addr m.tags cargs ∧
     avmessage buffer m.addr (ArgVal.listOf m.tags cargs) = amessage buffer m.addr m.tags cargs := by
   have ht : ∀ t ∈ m.tags, t ≠ 45 ∧ t ≠ 97 := fun t h => (isTag_ne_zero t (hwf.tags_ok t h)).2
-  refine ⟨vmessage_promote narrow widen buffer m.addr m.tags cargs m.args hwf.matches_ hd hf, ?_⟩
+  refine ⟨vmessage_promote_f narrow widen buffer m.addr m.tags cargs m.args hwf.matches_ hd hf, ?_⟩
   simp only [avmessage, avCollect_listOf m.tags cargs m.args hwf.matches_ hd ht]
 
-/-- **ringLength_encode** — `rtosc_message_ring_length` of a ring (split anywhere) that holds an
-    encoded message followed by *any* bytes is the length of the message.  (An address starting
-    with '#' could be taken for "#bundle"; OSC addresses start with '/'.) -/
+/-- Trigger of known finding C01-K1: the address is exactly `"#bundle"`.  The encoding of such
+    a message starts with the 8 bytes `"#bundle\0"`, which is how `rtosc_message_ring_length`
+    recognises a *bundle*.  (OSC 1.0 addresses start with '/', so this is not an OSC address;
+    the constructors accept it all the same.) -/
+def BundleAddressed (m : Msg) : Prop := m.addr = bundleAddr
+
+instance (m : Msg) : Decidable (BundleAddressed m) := by unfold BundleAddressed; exact inferInstance
+
+/-- the length clause as the property states it ("for any address") -/
+def messageLength_encode_statement : Prop :=
+  ∀ (m : Msg) (rest : Bytes), m.WF → messageLength (Spec.encode m ++ rest) = some (Spec.encode m).length
+
+/-- **messageLength_encode_counterexample** (C01-K1) — the clause is false for the address
+    `"#bundle"`: `rtosc_message(buf, 64, "#bundle", "ii", 1, 0)` returns 20, and
+    `rtosc_message_length` of those 20 bytes is 16 (they parse as a bundle with one empty element). -/
+theorem messageLength_encode_counterexample : ¬ messageLength_encode_statement := by
+  intro h
+  have := h ⟨bundleAddr, [105, 105], [.w32 1, .w32 0]⟩ [] (by decide +kernel)
+  revert this
+  decide +kernel
+
+/-- **ringLength_encode_partial** — `rtosc_message_ring_length` of a ring (split anywhere) that
+    holds an encoded message followed by *any* bytes is the length of the message, for every
+    address except exactly `"#bundle"` (addresses that merely start with '#', "#bundles/x"
+    included, are covered). -/
+theorem ringLength_encode_partial (m : Msg) (rest : Bytes) (r : Ring) (hwf : m.WF)
+    (hnb : ¬ BundleAddressed m) (h : r.d0 ++ r.d1 = Spec.encode m ++ rest) :
+    ringLength r = some (Spec.encode m).length :=
+  ringLength_spec' m rest r hwf hnb h
+
+/-- **messageLength_encode_partial** — `rtosc_message_length(msg, len)` on the encoding followed
+    by any trailing bytes reports the length of the encoding (address not exactly `"#bundle"`). -/
+theorem messageLength_encode_partial (m : Msg) (rest : Bytes) (hwf : m.WF) (hnb : ¬ BundleAddressed m) :
+    messageLength (Spec.encode m ++ rest) = some (Spec.encode m).length :=
+  ringLength_spec' m rest ⟨Spec.encode m ++ rest, []⟩ hwf hnb (by simp)
+
+/-- the form other properties cite (C06, C08: addresses that do not start with '#') -/
 theorem ringLength_encode (m : Msg) (rest : Bytes) (r : Ring) (hwf : m.WF)
     (hnb : m.addr.head? ≠ some 35) (h : r.d0 ++ r.d1 = Spec.encode m ++ rest) :
     ringLength r = some (Spec.encode m).length :=
   ringLength_spec m rest r hwf hnb h
-
-/-- **messageLength_encode** — `rtosc_message_length(msg, len)` on the encoding followed by any
-    trailing bytes reports the length of the encoding. -/
-theorem messageLength_encode (m : Msg) (rest : Bytes) (hwf : m.WF) (hnb : m.addr.head? ≠ some 35) :
-    messageLength (Spec.encode m ++ rest) = some (Spec.encode m).length :=
-  ringLength_spec m rest ⟨Spec.encode m ++ rest, []⟩ hwf hnb (by simp)
 
 /-- **read_encode (argument string)** — `rtosc_argument_string` points at the type tags, and the
     C string there is exactly `m.tags`. -/
@@ -155,18 +187,6 @@ theorem narguments_eq_iterator_count (m : Msg) (rest : Bytes) (hwf : m.WF)
     simp only [h1, Option.map_some, Spec.nargs, ← hvl]
     rw [← this]; rfl
 
-/-- **tables_agree** — the per-tag `switch` statements of rtosc.c (`arg_size`, `vsosc_null`,
-    `rtosc_amessage`, `extract_arg`, `rtosc_message_ring_length`), regenerated from the source
-    on every run, classify all 256 bytes exactly as the specification's `kind` does, and
-    `has_reserved` returns 1 exactly for the payload tags — so the five passes over the type
-    string cannot drift apart unnoticed. -/
-theorem tables_agree :
-    TabAgrees Generated.argSizeTab ∧ TabAgrees Generated.sizeNullTab ∧ TabAgrees Generated.writeTab ∧
-    TabAgrees Generated.extractTab ∧ TabAgrees Generated.ringLengthTab ∧
-    (∀ n, n < 256 → (tabClass Generated.hasReservedTab n = 1 ↔ hasReserved (UInt8.ofNat n) = true)) ∧
-    (∀ n, n < 256 → (hasReserved (UInt8.ofNat n) = true ↔ classOf (UInt8.ofNat n) ≠ 0)) := by
-  refine ⟨?_, ?_, ?_, ?_, ?_, ?_, ?_⟩ <;> decide +kernel
-
 /-! ### Non-vacuity: the message `"/ab" "[sb]i"` with a 5-byte string, a 3-byte blob and an int
     meets every hypothesis, and the conclusions evaluate as stated. -/
 
@@ -180,7 +200,14 @@ def exBytes : Bytes :=
 
 example : exMsg.WF := by decide +kernel
 example : Spec.encode exMsg = exBytes := by decide +kernel
-example : exMsg.addr.head? ≠ some 35 := by decide
+example : ¬ BundleAddressed exMsg := by decide
+/-- an address that starts with '#' (even with "#bundle") but is not "#bundle" is covered -/
+example : ¬ BundleAddressed ⟨[35, 98, 117, 110, 100, 108, 101, 115, 47, 120], [105], [.w32 1]⟩ := by decide
+example : messageLength (Spec.encode ⟨[35, 98, 117, 110, 100, 108, 101, 115, 47, 120], [105], [.w32 1]⟩) =
+    some 20 := by decide +kernel
+/-- the trigger of C01-K1 holds for the witness, which is a well-formed message -/
+example : BundleAddressed ⟨bundleAddr, [105, 105], [.w32 1, .w32 0]⟩ ∧
+    Msg.WF ⟨bundleAddr, [105, 105], [.w32 1, .w32 0]⟩ := by decide +kernel
 example : Denote (exMsg.args.map Arg.toC) exMsg.args := denote_toC _ (by decide)
 /-- NULL blob data: a 3-byte blob given as (3, NULL) denotes three zero bytes -/
 example : Denote [.str [104], .blob 3 none] [.str [104], .blob [0, 0, 0]] := by
@@ -193,6 +220,8 @@ example : narguments exBytes = some 3 := by decide +kernel
 example : Spec.values exMsg =
     [(115, .arg (.str [104, 101, 108, 108, 111])), (98, .arg (.blob [1, 2, 3])),
      (105, .arg (.w32 0x7fffffff))] := by decide
+/-- only the value under the 'f' tag has to round-trip: for "if" with (5, 0.25f) that is 0.25f -/
+example : fArgs [105, 102] [.w32 5, .w32 0x3e800000] = [0x3e800000] := by decide
 /-- the float hypothesis of `vmessage_eq_spec`/`three_constructors_agree` is met by the exact
     conversions `widenF32`/`narrowF64` on the floats 0.25, -1.5, +inf, a quiet NaN with payload,
     the smallest subnormal and FLT_MAX -/
